@@ -9,8 +9,10 @@ pub fn generate(scenario: &str, seed: u64, tier: &str) -> Value {
     let prop = it.next().unwrap_or("");
     match family {
         "proxy" => gen::gen_proxy(seed, prop, tier),
+        "hostile" => crate::hostile::gen_c13(seed, tier),
         "keeper" => match prop {
             "C10" => crate::keeper::gen_c10(seed, tier),
+            "C12" => crate::keeper::gen_c12(seed, tier),
             _ => crate::keeper::gen_c09(seed, tier),
         },
         _ => serde_json::json!({"scenario": scenario, "seed": seed, "steps": [], "oracles": []}),
@@ -54,11 +56,17 @@ pub async fn custom_step(run: &mut Run, _idx: usize, kind: &str, step: &Value) -
                 let v: Vec<Value> = ok.iter().map(|f| serde_json::json!({"userName": f.userName, "ip": f.ip, "port": f.port, "processCmdLine": f.processCmdLine, "processFullPath": f.processFullPath, "responseStatus": f.responseStatus, "count": f.count})).collect();
                 run.observations.push(("conn_summary".into(), vrt::time::now_ns(), Value::Array(v)));
             }
-            let sj = std::fs::read("/var/log/azure-proxy-agent/status.json").ok().and_then(|d| serde_json::from_slice::<Value>(&d).ok()).unwrap_or(Value::Null);
+            let sj = crate::seams::untraced(|| std::fs::read("/var/log/azure-proxy-agent/status.json")).ok().and_then(|d| serde_json::from_slice::<Value>(&d).ok()).unwrap_or(Value::Null);
             run.observations.push(("status_json".into(), vrt::time::now_ns(), sj));
             true
         }
-        other => crate::keeper::custom_step(run, _idx, other, step).await,
+        other => {
+            if crate::hostile::custom_step(run, _idx, other, step).await {
+                true
+            } else {
+                crate::keeper::custom_step(run, _idx, other, step).await
+            }
+        }
     }
 }
 
@@ -67,10 +75,14 @@ pub async fn run(scenario: &str, seed: u64, plan: Value) -> Value {
     let family = run.plan["family"].as_str().unwrap_or("").to_string();
     match family.as_str() {
         "proxy" => oracle::check_proxy(&mut run),
+        "hostile" => crate::hostile::check_c13(&mut run),
         "keeper" => {
             oracle::check_proxy(&mut run);
             if run.plan["prop"] == "C09" {
                 crate::keeper::check_c09(&mut run);
+            }
+            if run.plan["prop"] == "C12" {
+                crate::keeper::check_c12(&mut run);
             }
         }
         _ => {}
